@@ -98,6 +98,9 @@ class Stream:
     def __aiter__(self):
         return self
 
+    def __len__(self):
+        return 0  # the current backlog of a live feed, not its length
+
     async def __anext__(self):
         self.census.sample(f"pull {self.i} of {self.name}")
         if self.i >= self.n:
